@@ -15,6 +15,29 @@ CH_NOTE = ("Trusted: CPython, CrossHair 0.0.110's models of int/bool/str primiti
            "replayed under /venv/bin/python without CrossHair before it is reported.")
 
 CLAIMS = {
+    'C08': dict(
+        engine='LLSYM',
+        technique='symbolic execution of the LLVM IR clang emits for the real girepository/giroffsets.c (own IR '
+                  'interpreter over z3 bit-vectors, flat byte memory, depth-first paths, unwinding assertion); '
+                  'counterexamples replayed natively and confirmed by gcc sizeof/_Alignof/offsetof',
+        category='model_checking',
+        text='giroffsets.c is compiled unmodified (shim GLib headers) to LLVM IR and executed symbolically: node '
+             'graphs for a struct or union of k members (quick k<=4, thorough k<=5) are built from nondeterministic '
+             'integers - every basic type tag, pointers, enums/flags with two symbolic 64-bit member values, fixed '
+             'arrays of symbolic length <= 2^15, nested struct/union/boxed/object/interface records, callback fields '
+             'and members, members of unknown size (void, unsized array, unresolved, non-type) - and run through '
+             'compute_struct_field_offsets / compute_union_field_offsets / _g_ir_node_compute_offsets / '
+             'get_*_size_alignment / compute_enum_storage_type with libffi\'s real type table; assertions state the '
+             'System V x86-64 layout rules (offset, size, alignment, enum storage per gcc, unknown member => unknown '
+             'layout). z3 decides every branch and assertion over all values in the bounds; each item has a vacuity '
+             'twin. Translator validation on every run: 59 concrete declarations (incl. tests/offsets/offsets.h) '
+             'native == LLSYM concrete mode == gcc.',
+        design_ref='DESIGN.md section 4, C08; vlib/llsym/__init__.py',
+        note='Trusted: clang lowering to IR at -O1 for this target, z3, gcc as ABI oracle, libffi type table, the '
+             'shim GLib headers (types/macros only). Enumerations have two values; symbolic arrays are '
+             'one-dimensional; bit-fields, long double, over-aligned types, other platforms and the XML-to-node '
+             'front end (girparser.c) are outside the claim. The 64-bit enumeration defect is a recorded finding '
+             'checked in items of its own.'),
     'C12': dict(
         engine='CH',
         technique='solver-driven path exploration of the real GDumpParser + scanner pipeline with CrossHair/z3 '
